@@ -186,8 +186,33 @@ def run_c10(case, tmp):
     return o
 
 
+def run_asm(case, tmp):
+    """assemble one source text with the real assembler in all four versions; observe each written file"""
+    from flipjump import flipjump_quickstart as qs
+    src = Path(tmp) / 'p.fj'
+    src.write_text(case['src'])
+    outs = []
+    for ver in range(4):
+        out = Path(tmp) / f'p{ver}.fjm'
+        if out.exists():
+            out.unlink()
+        try:
+            qs.assemble([src] if not case.get('path') else [Path(case['path'])], out, memory_width=case['w'],
+                        use_stl=bool(case.get('stl')), fjm_version=FJMVersion(ver), print_time=False)
+        except FlipJumpException as e:
+            outs.append({'asm_error': type(e).__name__ + ': ' + str(e)[:200]})
+            continue
+        except BaseException as e:  # noqa
+            outs.append({'asm_error': 'RAW ' + exc_name(e) + ': ' + str(e)[:200]})
+            continue
+        o = run_c10({'file': out.read_bytes().hex(), 'run': None}, tmp)
+        o['file'] = out.read_bytes().hex()
+        outs.append(o)
+    return outs
+
+
 def probe(tmp):
-    """which of the validations proposed for F3-F6 are present on the tree under test, and its constants"""
+    """the constants of the tree under test, and whether the witnesses of the fixed defects F3-F6 are refused"""
     path = Path(tmp) / 'p.fjm'
 
     def rejects(f):
@@ -235,10 +260,9 @@ def probe(tmp):
 
     f6s = [f6([(0, 2, 0, 4)]), f6([(0, 4, 0, 2), (2, 4, 2, 2)]), f6([(1, 2, 0, 2)]), f6([(0, 3, 0, 2)]), f6([(0, 0, 0, 0)])]
     return {
-        'fx_parity': rejects(f3),
-        'fx_words': rejects(f4) and rejects(f4n),
-        'fx_ranges': rejects(f5a) and rejects(f5b) and rejects(f5c),
-        'fx_table': all(rejects(g) for g in f6s),
+        'witnesses': {'F3_odd_data_length': rejects(f3), 'F4_word_out_of_range': rejects(f4) and rejects(f4n),
+                      'F5_range_or_field': rejects(f5a) and rejects(f5b) and rejects(f5c),
+                      'F6_inconsistent_table': all(rejects(g) for g in f6s)},
         'partial': {'words': [rejects(f4), rejects(f4n)], 'ranges': [rejects(f5a), rejects(f5b), rejects(f5c)],
                     'table': [rejects(g) for g in f6s]},
         'consts': [fjm_consts.FJ_MAGIC, fjm_consts._reserved_dict_threshold, fjm_consts._header_base_size,
@@ -257,6 +281,8 @@ def main():
             out = probe(tmp)
         elif req['mode'] == 'c06':
             out = [run_c06(c, tmp) for c in req['cases']]
+        elif req['mode'] == 'asm':
+            out = [run_asm(c, tmp) for c in req['cases']]
         else:
             out = [run_c10(c, tmp) for c in req['cases']]
     Path(sys.argv[2]).write_text(json.dumps(out))
